@@ -69,5 +69,72 @@ theorem literal_code_filter (cs : List Char) (t : Txn) (hp : Regex.parse (String
     have h := (Regex.lits_full cs cs).mpr rfl
     simpa [Regex.FullMatch] using h
 
+/-! ## Successive selections
+
+`TxnData::filter` evaluates one definition over the loaded transactions and hands back a `TxnSet` of references; a
+user narrows a selection by wrapping definitions in `AND`.  The laws below say that this is what narrowing means:
+selecting from a selection (the model's `filterTxns` applied twice) is the single selection with the conjunction,
+in either order; selecting again with the same definition changes nothing; a definition and its negation never
+share a transaction and miss none; `OR` is the union; and the selection of a re-arranged journal is the re-arranged
+selection.  For every matcher, every definition and every journal. -/
+
+/-- narrowing a selection by `g` after `f` is the single selection `AND [f, g]` -/
+theorem filter_compose (m : String → String → Bool) (f g : Filter) (ts : List Txn) :
+    filterTxns m g (filterTxns m f ts) = filterTxns m (.and [f, g]) ts := by
+  unfold filterTxns
+  rw [List.filter_filter]
+  congr 1
+  funext t
+  simp [Filter.eval, Filter.evalAll, Bool.and_comm]
+
+/-- the order of two successive selections is irrelevant -/
+theorem filter_comm (m : String → String → Bool) (f g : Filter) (ts : List Txn) :
+    filterTxns m g (filterTxns m f ts) = filterTxns m f (filterTxns m g ts) := by
+  unfold filterTxns
+  rw [List.filter_filter, List.filter_filter]
+  congr 1
+  funext t
+  exact Bool.and_comm _ _
+
+/-- selecting again with the same definition changes nothing -/
+theorem filter_idem (m : String → String → Bool) (f : Filter) (ts : List Txn) :
+    filterTxns m f (filterTxns m f ts) = filterTxns m f ts := by
+  unfold filterTxns
+  rw [List.filter_filter]
+  congr 1
+  funext t
+  simp
+
+/-- a definition and its negation never select the same transaction, and between them they select all -/
+theorem filter_not_complement (m : String → String → Bool) (f : Filter) (ts : List Txn) (t : Txn) (ht : t ∈ ts) :
+    (t ∈ filterTxns m f ts ∧ t ∉ filterTxns m (.not f) ts) ∨ (t ∉ filterTxns m f ts ∧ t ∈ filterTxns m (.not f) ts) := by
+  unfold filterTxns
+  simp only [List.mem_filter, Filter.eval]
+  cases h : Filter.eval m f t <;> simp [ht]
+
+/-- `OR` selects exactly what either member selects -/
+theorem filter_or_mem (m : String → String → Bool) (f g : Filter) (ts : List Txn) (t : Txn) :
+    t ∈ filterTxns m (.or [f, g]) ts ↔ t ∈ filterTxns m f ts ∨ t ∈ filterTxns m g ts := by
+  unfold filterTxns
+  simp only [List.mem_filter, Filter.eval, Filter.evalAny, Bool.or_false, Bool.or_eq_true]
+  constructor
+  · rintro ⟨h, h1 | h2⟩
+    · exact Or.inl ⟨h, h1⟩
+    · exact Or.inr ⟨h, h2⟩
+  · rintro (⟨h, h1⟩ | ⟨h, h2⟩)
+    · exact ⟨h, Or.inl h1⟩
+    · exact ⟨h, Or.inr h2⟩
+
+/-- the selection of a re-arranged journal is the re-arranged selection (with C04: selection commutes with loading) -/
+theorem filter_perm (m : String → String → Bool) (f : Filter) (ts ts' : List Txn) (hp : ts.Perm ts') :
+    (filterTxns m f ts).Perm (filterTxns m f ts') :=
+  hp.filter _
+
+/-- non-vacuity: on a two-transaction journal, narrowing by two half-open time bounds selects the one inside both -/
+example : ∀ (m : String → String → Bool) (a b : Txn), a.header.ts.ns = 5 → b.header.ts.ns = 20 →
+    filterTxns m (.tsEnd 10) (filterTxns m (.tsBegin 0) [a, b]) = [a] := by
+  intro m a b ha hb
+  simp [filterTxns, List.filter, Filter.eval, ha, hb]
+
 end C05
 end Tackler
